@@ -5,7 +5,14 @@ from vf.unit import Unit, strip_attrs_and_docs
 from .common import HEADER, FOOTER, contract, extract_struct, extract_struct_priv
 
 # spec text of a byte-predicate closure body: exec helper calls become their spec functions, byte literals stay
-SPEC_MAP = [(r"is_newline\((\w+)\)", r"spec_is_newline(*\1)"), (r"shim_byte_is_numeric\(\*(\w+)\)", r"spec_byte_is_numeric(*\1)")]
+SPEC_MAP = [(r"is_newline\((\w+)\)", r"spec_is_newline(*\1)"), (r"shim_byte_is_numeric\(\*(\w+)\)", r"spec_byte_is_numeric(*\1)"),
+            (r"\(\*(\w+) as char\)\.is_numeric\(\)", r"spec_byte_is_numeric(*\1)"), (r"\(\*(\w+) as char\)\.is_whitespace\(\)", r"spec_byte_is_whitespace(*\1)")]
+
+
+def char_class_shims(f):
+    """`(*c as char).is_whitespace()` => `shim_byte_is_whitespace(*c)` (R2; table validated natively like is_numeric); any number of occurrences"""
+    f.replace_all_re(r"\(\*(\w+) as char\)\.is_whitespace\(\)", r"shim_byte_is_whitespace(*\1)", "R2",
+                     why="char::is_whitespace on a byte cast to char behind a shim (Latin-1 table validated natively)", min_count=0)
 
 PRIMS = """
 // ---- contracts of the scanning primitives: positive, relational facts about the (closure) predicate ----
@@ -101,6 +108,7 @@ pub struct ExUtf8Error(std::str::Utf8Error);
     f.replace_all_re(r"(\w+)\.iter\(\)\.position\(is_newline\)", r"shim_slice_position(\1, |b: &u8| -> (r: bool) ensures r == spec_is_newline(*b) { is_newline(b) })", "R2",
                      why="slice.iter().position(f) behind a shim; the fn item `is_newline` eta-expanded into a closure with its contract", min_count=0)
     f.replace_all_re(r"(\w+)\.iter\(\)\.position\((?=\|)", r"shim_slice_position(\1, ", "R2", why="slice.iter().position(p) behind a shim", min_count=0)
+    char_class_shims(f)
     for occ in range(1, len(re.findall(r"\|c\|", f.orig)) + 1):
         f.closure("|c|", occ=occ, params="|c: &u8|", ret="r: bool", spec="ensures r == ({specbody})", spec_map=SPEC_MAP)
     f.contract("""    ensures
@@ -158,7 +166,9 @@ pub struct ExUtf8Error(std::str::Utf8Error);
         && match ret {
             Ok((s, rest)) => valid_utf8(bytes@.subrange(0, k)) && str_bytes(s) == bytes@.subrange(0, k) && rest@ == bytes@.subrange(k, bytes@.len() as int)
                 && (k < bytes@.len() ==> !spec_is_newline(bytes@[k]) && predicate.ensures((&bytes@[k],), true)),
-            Err(e) => (!valid_utf8(bytes@.subrange(0, k)) || (k < bytes@.len() && spec_is_newline(bytes@[k]))) && e.line@ == bytes@.subrange(0, k),
+            Err(e) => (!valid_utf8(bytes@.subrange(0, k)) || (k < bytes@.len() && spec_is_newline(bytes@[k]))) && e.line@ == bytes@.subrange(0, k)
+                // an error, too, is raised at the stop position: end of input, a line terminator or a hit
+                && (k == bytes@.len() || spec_is_newline(bytes@[k]) || predicate.ensures((&bytes@[k],), true)),
         } }),
         /*@L:scan_step_stays_within_the_line:C06*/ ret is Ok ==> consumed_clean(bytes@, ret->Ok_0.1@) && str_no_nl(ret->Ok_0.0),""")
     f.body_start("let ghost b0 = bytes@;\n")
@@ -221,6 +231,44 @@ pub open spec fn class_line(bytes: Seq<u8>, o: Seq<u8>, b: Seq<u8>, tail: Seq<u8
     && (forall|j: int| 0 <= j < o.len() ==> o[j] != 32u8 && !spec_is_newline(#[trigger] o[j]))
     && (forall|j: int| 0 <= j < b.len() ==> b[j] != 58u8 && !spec_is_newline(#[trigger] b[j]))
 }
+// the shape of any decomposition of `bytes` as a class line (used for: every well-formed class line is accepted)
+pub proof fn lemma_class_line_shape(bytes: Seq<u8>)
+    ensures forall|o: Seq<u8>, b: Seq<u8>, tail: Seq<u8>| #[trigger] class_line(bytes, o, b, tail) ==> {
+        &&& o.len() + 4 + b.len() + 1 + tail.len() == bytes.len()
+        &&& bytes.subrange(0, o.len() as int) == o
+        &&& forall|j: int| 0 <= j < o.len() ==> #[trigger] bytes[j] == o[j]
+        &&& bytes[o.len() as int] == 32u8
+        &&& bytes.subrange(o.len() as int, bytes.len() as int) == lit_arrow() + b + lit_colon() + tail
+    },
+{
+    assert forall|o: Seq<u8>, b: Seq<u8>, tail: Seq<u8>| #[trigger] class_line(bytes, o, b, tail) implies ({
+        &&& o.len() + 4 + b.len() + 1 + tail.len() == bytes.len()
+        &&& bytes.subrange(0, o.len() as int) == o
+        &&& forall|j: int| 0 <= j < o.len() ==> #[trigger] bytes[j] == o[j]
+        &&& bytes[o.len() as int] == 32u8
+        &&& bytes.subrange(o.len() as int, bytes.len() as int) == lit_arrow() + b + lit_colon() + tail
+    }) by {
+        assert(bytes.subrange(0, o.len() as int) =~= o);
+        assert(bytes[o.len() as int] == lit_arrow()[0]);
+        assert(bytes.subrange(o.len() as int, bytes.len() as int) =~= lit_arrow() + b + lit_colon() + tail);
+    }
+}
+pub proof fn lemma_after_arrow(r1: Seq<u8>, b: Seq<u8>, tail: Seq<u8>)
+    requires r1 == lit_arrow() + b + lit_colon() + tail,
+    ensures r1.len() >= 4, r1.subrange(0, 4) == lit_arrow(), r1.subrange(4, r1.len() as int) == b + lit_colon() + tail,
+        (b + lit_colon() + tail)[b.len() as int] == 58u8,
+        forall|j: int| 0 <= j < b.len() ==> #[trigger] (b + lit_colon() + tail)[j] == b[j],
+        (b + lit_colon() + tail).subrange(0, b.len() as int) == b,
+        (b + lit_colon() + tail).subrange(b.len() as int, (b + lit_colon() + tail).len() as int) == lit_colon() + tail,
+        (lit_colon() + tail).subrange(0, 1) == lit_colon(),
+{
+    let r2 = b + lit_colon() + tail;
+    assert(r1.subrange(0, 4) =~= lit_arrow());
+    assert(r1.subrange(4, r1.len() as int) =~= r2);
+    assert(r2.subrange(0, b.len() as int) =~= b);
+    assert(r2.subrange(b.len() as int, r2.len() as int) =~= lit_colon() + tail);
+    assert((lit_colon() + tail).subrange(0, 1) =~= lit_colon());
+}
 // what follows the class line's `:` (normally the line terminator and the rest of the file)
 pub open spec fn class_tail(bytes: Seq<u8>, o: Seq<u8>, b: Seq<u8>) -> Seq<u8> { bytes.subrange((o.len() + 4 + b.len() + 1) as int, bytes.len() as int) }
 """
@@ -230,6 +278,7 @@ pub open spec fn class_tail(bytes: Seq<u8>, o: Seq<u8>, b: Seq<u8>) -> Seq<u8> {
     f = mp.fn("parse_proguard_class")
     f.ret("ret")
     f.props_all = ["C05", "C06"]; f.props_safety = P13
+    char_class_shims(f)
     for occ in range(1, len(re.findall(r"\|c\|", f.orig)) + 1):
         f.closure("|c|", occ=occ, params="|c: &u8|", ret="r: bool", spec="ensures r == ({specbody})", spec_map=SPEC_MAP)
     f.contract("""    ensures
@@ -240,12 +289,41 @@ pub open spec fn class_tail(bytes: Seq<u8>, o: Seq<u8>, b: Seq<u8>) -> Seq<u8> {
             Ok((_, _)) => false,
             Err(_) => true,
         },
+        /*@L:every_well_formed_class_line_is_accepted:C05*/ forall|o: Seq<u8>, b: Seq<u8>, tail: Seq<u8>|
+            #[trigger] class_line(bytes@, o, b, tail) && valid_utf8(o) && valid_utf8(b) ==> ret is Ok,
         /*@L:class_names_have_no_line_terminator:C06*/ match ret { Ok((ProguardRecord::Class { original, obfuscated }, _)) => str_no_nl(original) && str_no_nl(obfuscated), _ => true },
         /*@L:class_record_taken_within_first_line:C06*/ ret is Ok ==> taken_within_first_line(bytes@, ret->Ok_0.1@),""")
-    f.body_start("let ghost b0 = bytes@;\n    proof { axiom_byte_literals(); }\n")
-    f.after_stmt("let (original, bytes) =", "    let ghost b1 = bytes@;\n")
-    f.after_stmt("let bytes = parse_prefix(bytes,", "    let ghost b2 = bytes@;\n", occ=1)
-    f.after_stmt("let (obfuscated, bytes) =", "    let ghost b3 = bytes@;\n")
+    f.body_start("let ghost b0 = bytes@;\n    proof { axiom_byte_literals(); lemma_class_line_shape(b0); }\n")
+    f.after_stmt("let (original, bytes) =", """    let ghost b1 = bytes@;
+    proof {
+        assert forall|o: Seq<u8>, b: Seq<u8>, tail: Seq<u8>| #[trigger] class_line(b0, o, b, tail) implies
+            str_bytes(original).len() == o.len() && b1 == lit_arrow() + b + lit_colon() + tail && b1.len() >= 4 && b1.subrange(0, 4) == lit_arrow() by {
+            let k = str_bytes(original).len() as int;
+            if k > o.len() { assert(b0[o.len() as int] == 32u8); }
+            if k < o.len() { assert(b0[k] == o[k]); }
+            lemma_after_arrow(lit_arrow() + b + lit_colon() + tail, b, tail);
+        }
+    }
+""")
+    f.after_stmt("let bytes = parse_prefix(bytes,", """    let ghost b2 = bytes@;
+    proof {
+        assert forall|o: Seq<u8>, b: Seq<u8>, tail: Seq<u8>| #[trigger] class_line(b0, o, b, tail) implies
+            b2 == b + lit_colon() + tail && b2[b.len() as int] == 58u8 && (forall|j: int| 0 <= j < b.len() ==> #[trigger] b2[j] == b[j]) && b2.subrange(0, b.len() as int) == b by {
+            lemma_after_arrow(b1, b, tail);
+        }
+    }
+""", occ=1)
+    f.after_stmt("let (obfuscated, bytes) =", """    let ghost b3 = bytes@;
+    proof {
+        assert forall|o: Seq<u8>, b: Seq<u8>, tail: Seq<u8>| #[trigger] class_line(b0, o, b, tail) implies
+            b3 == lit_colon() + tail && b3.len() >= 1 && b3.subrange(0, 1) == lit_colon() by {
+            let k = str_bytes(obfuscated).len() as int;
+            lemma_after_arrow(b1, b, tail);
+            if k > b.len() { assert(b2[b.len() as int] == 58u8); }
+            if k < b.len() { assert(b2[k] == b[k]); }
+        }
+    }
+""")
     f.after_stmt("let bytes = parse_prefix(bytes,", "    let ghost b4 = bytes@;\n", occ=2)
     f.insert_before("Ok((record,", """proof {
         let o = str_bytes(original); let b = str_bytes(obfuscated);
@@ -344,6 +422,7 @@ pub proof fn lemma_sfp_no_nl()
     f = mp.fn("parse_proguard_header")
     f.ret("ret")
     f.props_all = ["C05", "C06"]; f.props_safety = P13
+    char_class_shims(f)
     for occ in range(1, len(re.findall(r"\|c\|", f.orig)) + 1):
         f.closure("|c|", occ=occ, params="|c: &u8|", ret="r: bool", spec="ensures r == ({specbody})", spec_map=SPEC_MAP)
     f.replace_all_re(r"parse_until\(bytes, is_newline\)", "parse_until(bytes, |b: &u8| -> (r: bool) ensures r == spec_is_newline(*b) { is_newline(b) })", "R3",
@@ -474,6 +553,7 @@ pub proof fn lemma_numeric_no_nl(b: Seq<u8>, k: int)
     f = mp.fn("parse_proguard_field_or_method")
     f.ret("ret")
     f.props_all = ["C05", "C06"]; f.props_safety = P13
+    char_class_shims(f)
     for occ in range(1, len(re.findall(r"\|c\|", f.orig)) + 1):
         f.closure("|c|", occ=occ, params="|c: &u8|", ret="r: bool", spec="ensures r == ({specbody})", spec_map=SPEC_MAP)
     f.replace_all_re(r"parse_until\(bytes, is_newline\)", "parse_until(bytes, |b: &u8| -> (r: bool) ensures r == spec_is_newline(*b) { is_newline(b) })", "R3",
